@@ -40,6 +40,8 @@ def make_cases(ctx: Ctx):
             for scheme in ("EF", "RK2", "RK4"):
                 # displacement per step below about one cell: |u| dt / dx <~ 1
                 dt = int(2 ** r.randint(0, 8))
+                if (k + len(cases)) % 7 == 3:
+                    dt = int(r.choice([86400, 2 * 86400, 86400 + 3600 * 6]))     # a time step of a day or more is a time step
                 # anywhere in the interior of the valid region (also close to its edges, where the stage clip acts)
                 parts = [[float(r.randint(2 * 16, (imax - 3) * 16)) / 16, float(r.randint(2 * 16, (jmax - 3) * 16)) / 16, 5.0, 1, 1] for _ in range(7)]
                 parts[0][0] = 4.0; parts[0][1] = 4.0
